@@ -48,7 +48,7 @@ IntC  == {"w", "l"}
 FltC  == {"s", "d"}
 Base  == IntC \cup FltC
 ExtC  == {"b", "h"} \cup Base
-Pow2  == {1, 2, 4, 8, 16, 32, 64, 128, 256, 512, 1024, 2048, 4096, 8192, 16384, 32768, 65536}
+Pow2  == {2 ^ k : k \in 0..28}
 
 (* (sequences of instruction records are always walked by index: a set of records would have to be sorted) *)
 
@@ -324,11 +324,11 @@ ItemOK(it) ==
     [] OTHER -> FALSE
 Bad_DataItemsValid(M) ==
   {M.data[i].name : i \in {j \in DOMAIN M.data :
-     ~(M.data[j].align \in Pow2 \cup {0} /\ \A k \in DOMAIN M.data[j].items : ItemOK(M.data[j].items[k]))}}
+     ~(\A k \in DOMAIN M.data[j].items : ItemOK(M.data[j].items[k]))}}
 DataItemsValid(M) == Bad_DataItemsValid(M) = {}
 
 (* `data $x = { ... }` without an align clause gets QBE's default alignment 8 *)
-EffAlign(d) == IF d.align = 0 THEN 8 ELSE d.align
+EffAlign(d) == IF d.align = -1 THEN 8 ELSE d.align      \* align = -1: the definition has no align clause
 ClsSize == [b |-> 1, h |-> 2, w |-> 4, l |-> 8, s |-> 4, d |-> 8]
 ItemSize(it) == IF it.k = "z" \/ it.k = "str" THEN it.n ELSE ClsSize[it.cls] * it.n
 DataBytes(d) == FoldLeft(LAMBDA acc, it : acc + ItemSize(it), 0, d.items)
@@ -337,8 +337,15 @@ DataBytes(d) == FoldLeft(LAMBDA acc, it : acc + ItemSize(it), 0, d.items)
 Bad_DataSize(M) ==
   {M.data[i].name : i \in {j \in DOMAIN M.data :
      LET d == M.data[j]
-     IN ~d.big /\ d.csize >= 0 /\ ~(DataBytes(d) = d.csize /\ EffAlign(d) >= d.calign)}}
+     IN ~d.big /\ d.csize >= 0 /\ DataBytes(d) # d.csize}}
 DataSize(M) == Bad_DataSize(M) = {}
+(* the alignment of a data definition is a power of two (>= 1: `align 0` is not an alignment) and at least the *)
+(* alignment the C object requires (its type's alignment or its _Alignas, whichever is stricter)                *)
+Bad_DataAlign(M) ==
+  {M.data[i].name : i \in {j \in DOMAIN M.data :
+     LET d == M.data[j]
+     IN ~(d.align = -1 \/ d.align \in Pow2) \/ (d.calign >= 0 /\ EffAlign(d) < d.calign)}}
+DataAlign(M) == Bad_DataAlign(M) = {}
 
 (* ------------------------------------------------------------------------ *)
 (* The judgement                                                             *)
@@ -367,6 +374,7 @@ ModuleFailures(M) ==
     \cup R("TypeFieldsValid", Bad_TypeFieldsValid(M))
     \cup R("DataItemsValid", Bad_DataItemsValid(M))
     \cup R("DataSize", Bad_DataSize(M))
+    \cup R("DataAlign", Bad_DataAlign(M))
 
 (* DefDominatesUse at quiescence: every exposed use is available on entry, every phi operand at the end *)
 (* of its source block.                                                                                *)
